@@ -87,3 +87,5 @@ func runChild(name string, args []string) int {
 	}
 	return f(args)
 }
+
+func newRand(seed int64) *rand.Rand { return rand.New(rand.NewSource(seed)) }
